@@ -800,7 +800,7 @@ impl Check for C07 {
         "C07"
     }
     fn level(&self) -> &'static str {
-        "fault_injection_sim"
+        "exploration"
     }
     fn technique(&self) -> &'static str {
         "seeded whole-engine simulation: real router/session engine/tools/store on one tokio runtime against a scripted provider stub (every response byte, chunk boundary, drop point and HTTP status chosen by the seed), artifact-store faults, parallel runs; plus the store's compaction job drivers under the syscall seam with a seeded artifact-write failure; oracle = lifecycle automaton over the independently parsed log"
